@@ -10,15 +10,15 @@ T = {
             "by parametricity one traced execution of the generic impl speaks for all inputs of the Sym monomorphisation; transfer to f32/f64/ints assumes vek has no specialisation and is cross-checked by native sweeps"),
     "C02": ("Sym operation-log monitor, structural per-lane comparison; native-type per-lane reference sweeps",
             "Each operator/reduction/constructor of all 13 vector kinds is executed on free symbols; output lane i must be exactly Op(x_i, y_i) (no cross-lane operand), reductions are compared as polynomials/left folds, order-dependent ones on exact rationals and native ints/floats lane by lane.",
-            "closures passed to map/apply are observed per call; evaluation order is recorded but only exactly-once and lane mapping are asserted"),
+            "closures passed to map/apply are observed per call; evaluation order is recorded but only exactly-once and lane mapping are asserted; min/max tie behaviour is the scalar function's (std::cmp / vek::ops::partial_*), observed with elements whose ordering ignores a payload"),
     "C03": ("Tag data-movement monitor: row-major, column-major and abstract model run side by side over random API programs; Miri and valgrind memcheck on the unsafe array conversions and slice views with a heap-owning element",
-            "Random programs over the layout-agnostic matrix API are executed on a row-major value, a column-major value and an abstract model; after every step all three are compared through the raw public representation; flat views, Display and GL flag included.",
+            "Random programs over the layout-agnostic matrix API are executed on a row-major value, a column-major value and an abstract model; after every step all three are compared through the raw public representation; flat views, Display (also with format specifications) and GL flag included; an index just outside the matrix must panic in both layouts.",
             "the abstract model is written from the documentation; element identity is carried by opaque tokens so any misplaced element is seen regardless of values"),
     "C04": ("exact-rational (Q) and GF(p) monitors with registered angle tokens; f64 sampling with derived tolerance",
-            "Rotation builders are executed on exact unit-circle points (c,s) and rational-norm axes: orthogonality, det=+1, fixed axis, right-handed sense, additivity, scale-invariance in the axis, Mat3/Mat4/Quaternion/Vec2 agreement are checked exactly; arbitrary float angles/axes with tolerance.",
+            "Rotation builders are executed on exact unit-circle points (c,s) and rational-norm axes (scale factors from 2^-53 to 2^30, float axes over 20 / 120 decades): orthogonality, det=+1, fixed axis, right-handed sense, additivity, scale-invariance in the axis, Mat3/Mat4/Quaternion/Vec2 agreement are checked exactly; arbitrary float angles/axes with tolerance.",
             "identities are exact facts in Q[..]/(c^2+s^2-1); float tier tolerances are 64 eps scaled, ill-conditioned cases are inconclusive"),
     "C05": ("Sym/GF(p) polynomial identity monitors for the algebra; exact-rational unit quaternions; f64 sampling for acos-based extraction",
-            "Hamilton algebra laws are decided as polynomial identities on the logged product; rotation of vectors, composition, from-to rotation (incl. exactly antiparallel pairs through both branches) on exact rational inputs; angle-axis on floats.",
+            "Hamilton algebra laws are decided as polynomial identities on the logged product; rotation of vectors, composition, from-to rotation (incl. exactly antiparallel pairs through both branches) on exact rational inputs and on f32/f64 incl. exactly opposite integer pairs with a non-power-of-two ratio; angle-axis on floats incl. exactly +-identity.",
             "near-antiparallel / near-identity float cases are classed ill-conditioned, never violations"),
     "C06": ("GF(p)/Sym identity test for determinants and the general inverse; exact-rational monitor for the branching affine inverses",
             "Determinants vs the Leibniz expansion as polynomial identities; M*inv(M)=inv(M)*M=I as a rational-function identity at random field points and on structured exact rational matrices (singular sub-blocks, sparse, triangular); fast inverses on T*R[*S] by construction.",
@@ -26,35 +26,35 @@ T = {
     "C07": ("Sym/GF(p) identity monitors for constructors; exact step-list model for builder chains (all chains up to length 3 enumerated, longer sampled)",
             "Constructors act on points/directions by definition (polynomial identities); every chained *_ed builder equals pre-multiplication; chains apply steps in call order against an independent step list; Transform->Mat4 acts as position + orientation*(scale.p).",
             "rotations inside chains use registered exact angles"),
-    "C08": ("exact-rational monitor: the eight view-volume corners through the real matrix and homogeneous divide",
-            "For all 20 constructors x 2 layouts, random off-centre / reversed / negative plane sets and fov tokens: corners map to the clip-volume corners exactly, w>0 in front, perspective == frustum of implied planes, LH == RH * z-mirror.",
+    "C08": ("exact-rational monitor: the eight view-volume corners through the real matrix and homogeneous divide; f32/f64 corner monitor with a derived tolerance for all 21 constructors",
+            "For all 20 constructors x 2 layouts, random off-centre / reversed / negative plane sets and fov tokens: corners map to the clip-volume corners exactly (near planes down to 2^-60), w>0 in front, perspective == frustum of implied planes, LH == RH * z-mirror; the same corners on f32/f64 incl. narrow fields of view.",
             "inputs respect the constructors' debug_assert domains in the checked profile"),
     "C09": ("exact-rational monitor on cameras generated from rational orthonormal frames; f64 sampling",
-            "look_at / model_look_at (lh, rh, deprecated) and basis matrices: rigid, det +1, eye->0, target on the forward axis at distance d, up in the upper half-plane, model = inverse, origin/axes placement.",
+            "look_at / model_look_at (lh, rh, deprecated) and basis matrices: rigid, det +1, eye->0, target on the forward axis at distance d, up in the upper half-plane (up vectors from 2^-34 to 2^24 times unit length), model = inverse, origin/axes placement.",
             "cameras are built from rational frames so both normalisations are rational; float tier excludes up nearly parallel to the view direction"),
     "C10": ("exact-rational reference-model monitor for project/unproject; round-trip monitor; picking-matrix corner monitor",
-            "Projection to the viewport vs a from-scratch model, unproject(project(p)) = p exactly, picking rectangle corners map to the clip square, documented panics required.",
+            "Projection to the viewport vs a from-scratch model, unproject(project(p)) = p exactly, for T*R*S, general affine and projective model-views, vek's projections, sparse perturbations of the identity and one-point-perspective matrices, microscopic scenes; picking rectangle corners map to the clip square, documented panics required.",
             "points with clip w = 0 and singular matrix pairs are outside the domain"),
     "C11": ("Sym/GF(p) identity monitors (bilinearity, Lagrange, reflection ...); exact-rational branch-boundary monitor; f64 sampling for acos/sin-based parts",
-            "Geometric definitions of cross/dot/normalize/reflect/refract/face_forward/areas/homogenize on all spatial vector kinds, incl. exact branch boundaries (k=0, dot=0); angle_between and slerp on floats with tolerance.",
+            "Geometric definitions of cross/dot/normalize/reflect/refract/face_forward/areas/homogenize on all spatial vector kinds, incl. exact branch boundaries (k=0, dot=0); angle_between (magnitudes over 34 / 300 decades, degrees alias) and slerp (incl. extrapolation) on floats with tolerance; exact areas and homogenisation on native integer and float element types.",
             "near-singular slerp inputs are ill-conditioned"),
     "C12": ("exhaustive 8-bit sweep of the integer Lerp impls against an exact rational rounding model; Sym identity monitors for generic lerp; f32/f64 sampling for slerp",
             "All 65 536 (from,to) pairs of i8 and u8 x factor grid x fast/precise x value/ref vs exact round-half-away; wider ints stratified; generic lerp identities; nlerp/slerp unit, shorter arc, constant speed; Transition accessors equal the matching Lerp call.",
             "integer oracle judges only endpoints exactly representable in the factor type and results in range, as the property states"),
     "C13": ("exhaustive grid enumeration against point-set semantics",
-            "All boxes with corners on a small grid (valid and invalid) x all second boxes x all grid/half-grid points, 2-D exhaustive and 3-D exhaustive in thorough: every Aabr/Aabb/Rect/Rect3 method is compared pointwise with the set it denotes.",
+            "All boxes with corners on a small grid (valid and invalid) x all second boxes x all grid/half-grid points, 2-D exhaustive and 3-D exhaustive in thorough: every Aabr/Aabb/Rect/Rect3 method is compared pointwise with the set it denotes; all boxes with signed / odd coordinates for centre, size and the rectangle == box equivalence.",
             "methods that assert validity are called only inside their documented domain"),
     "C14": ("Sym/GF(p) polynomial identity monitors with forward-mode derivatives over the logged evaluate",
-            "evaluate == Bernstein polynomial in free control points and free t; evaluate_derivative == d/dt of the logged evaluate; split re-parametrises; elevation, matrix form, reversal, flips, matrix*curve commute; quarter circle radius on floats.",
+            "evaluate == Bernstein polynomial in free control points and free t; evaluate_derivative == d/dt of the logged evaluate; split re-parametrises; elevation, matrix form, reversal, flips, matrix*curve commute; an exact value tier with coincident control points at t = 0, 1, inside and outside; quarter circle radius on floats.",
             "identities are decided at random points of GF(2^61-1)"),
     "C15": ("exact-rational monitor on curves constructed per branch of the root finder; f64 grid sampling; search/length monotonicity monitors",
             "Extrema parameters in [0,1] and optimal, inflections are derivative zeros inside the interval, boxes in curve coordinates containing and touching the curve, search result no worse than coarse samples, length bounds and refinement monotonicity.",
             "curves are integrated from chosen derivatives so true extrema are known exactly"),
     "C16": ("exact-rational monitors with squared-distance, parametric-minimisation and Cramer-solve oracles; f32/f64 for pi formulas",
-            "Containment/collision boundaries hit exactly via Pythagorean offsets; projected point nearest among 257 samples; ray-triangle vs an independent exact solve incl. edges, vertices, parallel rays.",
+            "Containment/collision boundaries hit exactly via Pythagorean offsets; projected point nearest among 257 samples; ray-triangle vs an independent exact solve incl. edges, vertices, parallel rays, both windings; microscopic scenes; bounds evaluated in the element type for large floats and wide-radius integers.",
             "determinants inside vek's epsilon band are outside the domain"),
     "C17": ("exhaustive 2^24 sweeps of every (value, lower, upper) triple of i8/u8/Wrapping against an i32 model, panic-equivalence monitor; stratified wide ints; float boundary sampling",
-            "clamp/is_between/wrapped/wrapped_between/pingpong/delta_angle against their range laws for every 8-bit input, documented panics required exactly.",
+            "clamp/is_between/wrapped/wrapped_between/pingpong/delta_angle against their range laws for every 8-bit input, documented panics required exactly; wide integers and their Wrapping forms; floats incl. the exact half-turn boundary in degrees and NaN / infinities against the closed-interval test.",
             "cases whose mathematically correct result is not representable are outside the property (as stated)"),
     "C18": ("ownership-ledger monitor (Own) over enumerated iterator histories with the iterator's own cursors read through a cfg hook; Miri and valgrind memcheck on the same workload",
             "All pull sequences over {next,next_back} with observers and drop at every prefix for dims 2..8, covering sets visiting every (front,back) state for 16..64; every element yielded or dropped exactly once, never observed after being yielded; conversions transfer each element once; slice views alias storage.",
